@@ -1,6 +1,6 @@
 (* C09 -- Code is verbatim (partial: see MANIFEST level text).  Property theorems only. *)
 From Rimu Require Import Base Regex RegexParse Str Types Tables Guards State Inline Block
-  Frame FrameBlock FrameInst OptionsLemmas MiscLemmas MoreLemmas.
+  Frame FrameBlock FrameInst OptionsLemmas MiscLemmas MoreLemmas Plain MatchExact Emphasis.
 
 (* the code and indented definitions of the generated table expand specials only
    (macros, spans, container, skip all off) and wrap in <pre><code> *)
@@ -36,4 +36,19 @@ Example C09_ex :
   match api_render 40 ($"``" ++ [10] ++ $"*a* <b> {m} [l](u)" ++ [10] ++ $"``") (mkOpts PyNone PyNone PyNone false) S0 with
   | Ok (html, _) => str_eqb html $"<pre><code>*a* &lt;b&gt; {m} [l](u)</code></pre>"
   | _ => false end = true.
+Proof. vm_compute. reflexivity. Qed.
+
+(* THE INLINE CODE QUOTE IS FOUND AND ITS CONTENT IS VERBATIM: for every pre and post over the plain alphabet and every body over
+   the plain alphabet plus the star (starting and ending with a non-space), of any length,
+   spans.render (pre ` body ` post) = escape pre . <code> . escape body . </code> . escape post
+   -- so a *star* inside the code quote is not emphasis; the delimiters are located with the exact regex semantics *)
+Theorem C09_code_quote_verbatim : forall n s pre body post,
+  defaults s -> RegexAnalysis.over plain_alphabet pre -> code_body_ok body -> RegexAnalysis.over plain_alphabet post ->
+  spans_render (S (S (S (S n)))) s (pre ++ tick :: body ++ tick :: post) =
+  iret (escape pre ++ $"<code>" ++ escape body ++ $"</code>" ++ escape post).
+Proof. exact spans_render_code. Qed.
+Print Assumptions C09_code_quote_verbatim.
+
+Example C09_ex_code_quote :
+  spans_render 6 (ienv_of (document_init S0)) $"Use `a *b* < c` here." = iret $"Use <code>a *b* &lt; c</code> here.".
 Proof. vm_compute. reflexivity. Qed.
